@@ -703,7 +703,8 @@ def judge(case):
             stats['host_restarts'] += 1
         elif k in ('query', 'project_search'):
             if ev.get('inv_bad'):
-                problems.append(('inv:%s' % ev['inv_bad'][0][0], {'op': i, 'bad': ev['inv_bad']}))
+                # host-state / sentinel anomalies are C12's business: counted, not judged here
+                stats['c12_invariant_anomalies'] += 1
             cache = ev.get('cache') or {}
             if cache.get('pickle_hit'):
                 stats['pickle_hits'] += cache['pickle_hit']
